@@ -267,7 +267,7 @@ def check_synth(oi, old, new):
 
 
 N = count(SLOTS)
-NSTEP = 11 if rt.TIER == "quick" else 29
+NSTEP = 11 if rt.TIER == "quick" else 61
 NNEW = (N + NSTEP - 1) // NSTEP
 NS = len(ORDERS) * N * NNEW
 SLO, SHI = rt.shard_range(NS)
